@@ -4,6 +4,7 @@ package websvc
 
 import (
 	"bufio"
+	"context"
 	"fmt"
 	"io"
 	"net/http"
@@ -69,7 +70,7 @@ func (b *c19cBackend) RoundTrip(r *http.Request) (resp *http.Response, err error
 
 func c19cNew() (h http.Handler, be *c19cBackend) {
 	apiURL, _ := url.Parse("http://backend.example")
-	h = linkedIPHandler(apiURL, agdtest.NewErrorCollector(), "verif", 2*time.Second)
+	h = linkedIPHandler(apiURL, &agdtest.ErrorCollector{OnCollect: func(_ context.Context, _ error) {}}, "verif", 2*time.Second)
 	be = &c19cBackend{}
 	h.(*linkedIPProxy).httpProxy.Transport = be
 
